@@ -1,11 +1,12 @@
 #!/bin/bash
-# usage: seedcheck.sh <seed-name> <worktree> <prop> [more props...]
+# usage: seedcheck.sh <seed-name> <worktree>
 # Confirms a seeded change in its scratch worktree (builds, baseline suite passes,
 # demo fails with / passes without), stores it under /verif/seeded/<seed-name>/ and runs the
-# registered checks of the given properties against /repo with the patch applied.
+# all 20 rule sets against a scratch copy of /repo with the patch applied (tools/trypatch.py).
 set -u
 export GOFLAGS=-mod=mod GOPROXY=off GOSUMDB=off GOTOOLCHAIN=local; unset GOWORK
 NAME="$1"; WT="$2"; shift 2
+export TMPDIR=$(mktemp -d /tmp/seedcheck_tmp.XXXXXX); trap 'rm -rf "$TMPDIR"' EXIT  # pkg/vm/wasm tests use a fixed directory under TMPDIR
 OUT=/verif/seeded/$NAME; mkdir -p "$OUT"
 cp "$WT/seed/patch.diff" "$OUT/patch.diff" || exit 2
 rm -rf "$OUT/demo"; cp -r "$WT/seed/demo" "$OUT/demo" 2>/dev/null
@@ -24,14 +25,5 @@ echo "== demo WITH change (must fail)"
 (cd "$WT" && timeout 600 bash -c "$DEMO_CMD" 2>&1 | grep -v "^/usr/bin/ld\|^#" | grep -E "^(---|FAIL|ok|PASS|panic)" | head -8); 
 echo "== demo WITHOUT change (must pass)"
 git apply -R seed/patch.diff && (timeout 600 bash -c "$DEMO_CMD" 2>&1 | grep -v "^/usr/bin/ld\|^#" | grep -E "^(---|FAIL|ok|PASS|panic)" | head -8); git apply seed/patch.diff
-echo "== checks on /repo with the patch"
-cd /repo && git diff --quiet || { echo "/repo dirty, abort"; exit 3; }
-if git apply --check "$OUT/patch.diff" 2>/dev/null; then
-  git apply "$OUT/patch.diff"
-  for P in "$@"; do
-    (cd /verif && ./check.sh $P quick > /tmp/seedcheck_$P.log 2>&1; echo "check $P exit=$?"; grep -E "^(VIOLATED|UNDECIDED)" /tmp/seedcheck_$P.log | cut -c1-300 | head -6)
-  done
-  git checkout -- . ; git status --short | head -3
-else
-  echo "patch does not apply to /repo HEAD"
-fi
+echo "== all 20 rule sets on a scratch copy of /repo with the patch"
+/verif/tools/trypatch.py "$OUT/patch.diff"
